@@ -96,3 +96,45 @@ func init() {
 		Assumptions: []string{"process-crash model: completed writes survive, the write in flight may be torn at any byte"},
 	})
 }
+
+func init() {
+	reg(&checkSpec{
+		ID: "C10", Harness: "eng", Inst: storagePkgs, Level: "fault_enumeration", Classes: []string{"C10:"},
+		Cfgs: []cfgSpec{
+			{Name: "types-single-client-crash", Cfg: "clients=1,wtyped=8,wdel=0,wdm=2,wread=2,wbulk=0,imgcap=8,cutden=30,nosettle", Gating: true, Share: 3},
+			{Name: "types-racing-writers", Cfg: "clients=3,wtyped=8,wdel=0,wdm=1,wread=2,wbulk=0,noreopen,nosettle", Gating: true, Share: 2},
+		},
+		QuickSecs: 50, ThoroughSecs: 900, MaxRunsPerProc: 200,
+		Rule:   "one case = one generated history of typed writes (conflicting field types), measurement drops, reads, snapshots under one seeded schedule, plus sampled crash images; non-trivial = at least 4 operations and one context switch; distinct = distinct hash of (operations, schedule, crash cuts)",
+		Probes: []string{"partial_write_expected", "cut_write_fields", "cut_torn-write_fields"},
+		Real:   engReal, Stub: engStub,
+		Assumptions: []string{"with one client the type model is exact (dropped counts, persisted schema before/after the operation in flight at a cut); with racing writers only 'never two types accepted for one field without a drop in between' and readability are judged"},
+	})
+	reg(&checkSpec{
+		ID: "C40", Harness: "eng", Inst: storagePkgs, Level: "exploration", Classes: []string{"C40:", "C10:dropped-count"},
+		Cfgs: []cfgSpec{
+			{Name: "partial-writes", Cfg: "clients=1,wtyped=10,wdel=0,wdm=1,wread=3,wbulk=0,nosettle", Gating: true, Share: 1},
+		},
+		QuickSecs: 40, ThoroughSecs: 600, MaxRunsPerProc: 200,
+		Rule:   "one case = one generated sequence of batches mixing valid points, field-type conflicts (against existing and same-batch fields), points with a time tag, points whose only field is named time, and invalid UTF-8 keys, against a shard with the schema earlier batches created; non-trivial = at least 4 operations and one context switch; distinct = distinct hash of (operations, schedule)",
+		Probes: []string{"partial_write_expected"},
+		Real:   engReal, Stub: engStub,
+		Assumptions: []string{"over-long string values (>1 MB) and points without fields are not generated (the latter cannot be constructed through models.NewPoint)"},
+	})
+}
+
+func init() {
+	reg(&checkSpec{
+		ID: "C39", Harness: "eng", Inst: storagePkgs, Level: "exploration", Race: true,
+		Classes: []string{"C39:", "C01:", "C03:", "deadlock", "busy-wait", "crash", "panic"},
+		Cfgs: []cfgSpec{
+			{Name: "union-workload-race-detector", Cfg: "clients=3,wdel=3,wdm=1,wsnap=3,wfull=2,wbulk=1,wtyped=2,noreopen,settle_s=15", Gating: true, Share: 3},
+			{Name: "union-with-reopen", Cfg: "clients=3,wdel=3,wdm=1,wsnap=2,wfull=1,wbulk=1,settle_s=15", Gating: true, Share: 1},
+		},
+		QuickSecs: 75, ThoroughSecs: 900, MaxRunsPerProc: 100,
+		Rule:   "one case = one generated concurrent program (writes, typed writes, reads, range deletes, measurement drops, snapshots, forced full compactions, bulk writes) under one seeded schedule, harness built with the race detector; non-trivial = at least 4 operations and one context switch; distinct = distinct hash of (operations, context-switch sequence)",
+		Probes: []string{"files_level1", "tombstones_on_disk"},
+		Real:   engReal, Stub: engStub,
+		Assumptions: []string{"race detector findings replay by seed because the interleaving is the simulator's; reads judged with interval semantics (some serial order of completed operations)"},
+	})
+}
